@@ -6,7 +6,7 @@ use vstd::string::StringSliceAdditionalSpecFns;
 use vstd::utf8::*;
 use vstd::std_specs::hash::*;
 use vstd::std_specs::btree::key_obeys_cmp_spec;
-use std::collections::{BTreeMap, HashMap};
+use std::collections::{BTreeMap, HashMap, HashSet};
 //@include prelude/bn_stubs.rs
 
 verus! {
